@@ -87,6 +87,16 @@ def main(argv=None):
                 k = match_known(known, a.prop, "B", signature=v.get("signature"))
                 if k: known_hits.append((k, v))
                 else: violations.append({"tier": "B", **v})
+    # ------------------------------------------------------------------ counterexamples for refuted obligations
+    # a refuted obligation comes with the solver's model (symbolic level); the failing INPUT replayed on the real code is taken
+    # from the bounded twin of the same contract when it finds one (preferring a case that names the same function)
+    bviol = [v for v in violations if v.get("tier") == "B" and v.get("input") is not None]
+    for v in violations:
+        if v.get("tier") == "P" and v.get("input") is None and bviol:
+            fn = v["function"].split(".")[-1].split(" ")[0]
+            pick = next((b for b in bviol if fn in str(b.get("what", "")) or fn in str(b.get("input", ""))), bviol[0])
+            v["input"] = {"found_by": "bounded run-time twin of the same contract", **(pick["input"] if isinstance(pick["input"], dict) else {"case": pick["input"]})}
+            v["native_observation"] = pick.get("what")
     # ------------------------------------------------------------------ report
     seen = set()
     for k, v in known_hits:
@@ -201,16 +211,25 @@ def run_proof(a, cfg, known, violations, known_hits, undecided):
 
 
 def replay(a, cfg):
+    """re-execute a recorded violation on the current tree: exit 1 if it is reproduced, 0 if not"""
     v = json.load(open(a.replay if os.path.isabs(a.replay) else os.path.join(ROOT, a.replay)))
+    print("replaying:", json.dumps({k: v.get(k) for k in ("tier", "signature", "obligation", "case", "input")}, default=str)[:1500])
     if v.get("tier") == "B" and cfg.get("bounded"):
         mod = importlib.import_module(f"vf.bounded.{cfg['bounded']}")
-        if hasattr(mod, "replay"):
-            ok = mod.replay(v)
-            print("replay:", "violation reproduced" if not ok else "no violation on this tree")
-            return 0 if ok else 1
-    print(json.dumps(v, indent=1, default=str)[:3000])
-    print("replay: proof-tier violation; re-running the proof tier")
-    return main([a.prop, "--tier", "quick", "--no-bounded"])
+        for tier in ("quick", "thorough"):
+            st = mod.run(tier, a.seed, procs=a.procs)
+            hit = [x for x in st.get("violations", []) if x.get("signature") == v.get("signature") or x.get("input") == v.get("input")]
+            if hit:
+                print(f"VIOLATION property={a.prop} replay={a.replay}"); print("   reproduced: " + str(hit[0].get("what"))[:400]); return 1
+        print("not reproduced on this tree"); return 0
+    from . import jobs as J
+    job_ids = [j for j, g in J.list_jobs() if cfg.get("jobs") and cfg["jobs"](j)]
+    for r in J.run_jobs(job_ids, procs=a.procs):
+        for o in r["obligations"]:
+            if o["name"] == v.get("obligation") and o["case"] == v.get("case") and o["status"] not in ("proved",):
+                print(f"VIOLATION property={a.prop} replay={a.replay}" + ("" if v.get("input") else " no-failing-input-found"))
+                print(f"   reproduced: obligation {o['name']} is {o['status']}: {str(o['model'])[:300]}"); return 1
+    print("not reproduced on this tree"); return 0
 
 
 if __name__ == "__main__":
